@@ -9,7 +9,7 @@ for d in seeded/*/; do
   id=$(basename $d)
   [ -n "${1:-}" ] && [[ "$id" != $1* ]] && { grep "^| $id " $out >> $out.tmp 2>/dev/null; continue; }
   prop=$(python3 -c "import json;print(json.load(open('$d/meta.json'))['property'])")
-  git -C /repo apply $d/patch.diff || { echo "| $id | $prop | PATCH DOES NOT APPLY | |" >> $out.tmp; continue; }
+  git -C /repo apply /verif/$d/patch.diff || { echo "| $id | $prop | PATCH DOES NOT APPLY | |" >> $out.tmp; continue; }
   ./check $prop quick --no-evidence > /tmp/seedrun.log 2>&1; rc=$?
   git -C /repo checkout -- .
   msg=$(grep -m1 -A1 '^VIOLATION' /tmp/seedrun.log | tail -1 | sed 's/^ *//; s/|/\\|/g')
